@@ -511,6 +511,16 @@ fn one_case(ctx: &Ctx, case: u64, l: &mut Local) {
             json!(sd_hash_of(&parts.jwt, &[])),
             json!(model::digest_of(&parts.jwt)),
             json!(sd_hash_of(&parts.jwt, &parts.disclosures).to_uppercase()),
+            // the right digest, spelled differently: '=' appended, and the last character replaced by
+            // the three others that share its four significant bits (a lenient decoder reads the same octets)
+            json!(format!("{}=", sd_hash_of(&parts.jwt, &parts.disclosures))),
+            {
+                let h = sd_hash_of(&parts.jwt, &parts.disclosures);
+                let last = h.chars().last().unwrap_or('A');
+                let idx = tamper::B64URL.find(last).unwrap_or(0);
+                let alt = tamper::B64URL.as_bytes()[(idx & !3) | ((idx + 1 + r.usize(3)) & 3)] as char;
+                json!(format!("{}{}", &h[..h.len() - 1], alt))
+            },
             // the right digest function over ALMOST the right string: no closing '~', a doubled one,
             // a leading one, the disclosures alone, the whole presentation incl. an empty KB slot,
             // the JSON document; and the right string under another function / encoding
